@@ -216,7 +216,7 @@ def run(tier, jobs=None):
             msg = ('%s false at step %d of run [%s scheduler=%s policy=%s seed=%s]; failing (task execution, variable): %s'
                    % (clause, l, t['meta'].get('label', ''), t['meta']['scheduler'], t['meta']['policy'], t['meta']['seed'], sorted(det)[:6]))
             verdict.violation(sig, msg, {'yaml': t['meta'].get('yaml'), 'meta': {k: v for k, v in t['meta'].items() if k not in ('yaml', 'action_runs')},
-                                         'failing': sorted(det), 'failing_step': l,
+                                         'failing': sorted(det), 'failing_step': l, 'job': t.get('job'),
                                          'tasks': [{k: x.get(k) for k in ('sid', 'state', 'trig', 'inCtx', 'published', 'hasNext')} for x in o['tk']],
                                          'probes': [{k: a.get(k) for k in ('sid', 'probe')} for a in o['ax']],
                                          'wf': [{k: w.get(k) for k in ('sid', 'state', 'output', 'inp')} for w in o['wf']]})
@@ -244,4 +244,17 @@ def run(tier, jobs=None):
 
 
 def replay(path):
-    return ec.replay(PID, path)
+    """Re-execute the stored program under the stored schedule parameters and judge it again (evidence of the re-run
+    goes to a scratch directory)."""
+    import base64
+    import pickle
+    import tempfile
+    doc = json.load(open(path))
+    job = (doc.get('replay') or {}).get('job')
+    if not job:
+        print('this replay file carries no executable job description')
+        return 2
+    common.EVID = tempfile.mkdtemp(prefix='c05replay')
+    global model_runs
+    model_runs = lambda d, tier: []
+    return run('quick', jobs=[pickle.loads(base64.b64decode(job))])
